@@ -63,6 +63,7 @@ type vpC04Call struct {
 	TimeoutMs int
 	Stream    int // 0 buffered, 1 stream read to EOF, 2 stream read K then CloseBodyStream
 	KPermille int
+	Implicit  bool // streamed: no CloseBodyStream call; the stream is disposed of by ReleaseResponse (Response.Reset)
 	Bufs      []int
 	Host      int
 	PreUs     int
@@ -191,6 +192,7 @@ func vpC04GenCall(t *rapid.T, id int, cfg *vpC04Cfg, timed bool) *vpC04Call {
 			c.KPermille = vpC04Weighted(t, l+".k", []int{0, 1, 10, 300, 700, 999, 1000}, []int{1, 1, 2, 3, 2, 1, 1})
 		}
 		if c.Stream != 0 {
+			c.Implicit = rapid.IntRange(0, 3).Draw(t, l+".implicit") == 0
 			n := rapid.IntRange(1, 3).Draw(t, l+".nbufs")
 			for i := 0; i < n; i++ {
 				c.Bufs = append(c.Bufs, vpC04Weighted(t, l+".buf", []int{1, 16, 100, 1024, 8192}, []int{1, 2, 3, 3, 2}))
@@ -422,9 +424,11 @@ func vpC04RunCall(d vpC04Doer, c *vpC04Call, plan *vpC04Plan, steer bool, h *vpC
 		}
 	}
 	res.early = !res.eof && res.streamErr == nil
-	resp.CloseBodyStream() //nolint:errcheck
-	h.add("call id=%d -> ok hdrID=%s streamed=%d bytes eof=%v early=%v connBacked=%v steered=%v streamErr=%v",
-		c.ID, res.hdrID, len(res.body), res.eof, res.early, res.connBack, res.steered, res.streamErr)
+	if !c.Implicit {
+		resp.CloseBodyStream() //nolint:errcheck
+	} // else: the deferred ReleaseResponse resets the response, which closes the stream
+	h.add("call id=%d -> ok hdrID=%s streamed=%d bytes eof=%v early=%v connBacked=%v steered=%v streamErr=%v implicitClose=%v",
+		c.ID, res.hdrID, len(res.body), res.eof, res.early, res.connBack, res.steered, res.streamErr, c.Implicit)
 	return res
 }
 
